@@ -79,5 +79,23 @@ func OddOCIShapes() []NamedOCI {
 				},
 			}
 		}},
+		// device cgroup rules as runtimes write them: wildcards (nil major and / or minor) for the very
+		// types, majors and access strings the generated device nodes use, before and after a deny-all
+		{"odd-cgroup-rules", func() *oci.Spec {
+			p := func(v int64) *int64 { return &v }
+			var rules []oci.LinuxDeviceCgroup
+			for _, ty := range []string{"c", "b", "a", ""} {
+				for _, acc := range []string{"rwm", "rw", "r", "m", ""} {
+					for _, maj := range []*int64{nil, p(10), p(1), p(7), p(136)} {
+						rules = append(rules, oci.LinuxDeviceCgroup{Allow: true, Type: ty, Major: maj, Minor: nil, Access: acc})
+						if maj == nil {
+							rules = append(rules, oci.LinuxDeviceCgroup{Allow: true, Type: ty, Major: nil, Minor: p(200), Access: acc})
+						}
+					}
+				}
+			}
+			rules = append(rules, oci.LinuxDeviceCgroup{Allow: false, Access: "rwm"})
+			return &oci.Spec{Process: &oci.Process{Env: []string{"PATH=/bin"}}, Linux: &oci.Linux{Resources: &oci.LinuxResources{Devices: rules}}}
+		}},
 	}
 }
